@@ -529,11 +529,14 @@ econf_err econf_readDirsWithCallback(econf_file **result,
   else
     (*result)->parse_dirs[1] = strdup("");
 
-  return readConfigWithCallback(result,
-				config_name,
-				config_suffix, delim, comment,
-				conf_dirs, conf_count,
-				callback, callback_data);
+  ret = readConfigWithCallback(result,
+			       config_name,
+			       config_suffix, delim, comment,
+			       conf_dirs, conf_count,
+			       callback, callback_data);
+  if (ret != ECONF_SUCCESS)
+    *result = econf_free(*result); /* nothing is handed back if reading fails */
+  return ret;
 }
 
 econf_err econf_readDirs(econf_file **result,
@@ -560,11 +563,14 @@ econf_err econf_readDirs(econf_file **result,
   else
     (*result)->parse_dirs[1] = strdup("");
 
-  return readConfigWithCallback(result,
-				config_name,
-				config_suffix, delim, comment,
-				conf_dirs, conf_count,
-				NULL, NULL);
+  ret = readConfigWithCallback(result,
+			       config_name,
+			       config_suffix, delim, comment,
+			       conf_dirs, conf_count,
+			       NULL, NULL);
+  if (ret != ECONF_SUCCESS)
+    *result = econf_free(*result); /* nothing is handed back if reading fails */
+  return ret;
 }
 
 // Write content of an econf_file struct to specified location
